@@ -175,7 +175,7 @@ def lean_run_file(path: Path, stdin: str | None = None, timeout=3000) -> tuple[i
 
 
 def obligations(prop: str) -> dict:
-    return json.loads((LEAN / "obligations.json").read_text())[prop]
+    return json.loads((LEAN / "obligations" / f"{prop}.json").read_text())
 
 
 def audit_axioms(prop: str) -> tuple[dict, list[str]]:
